@@ -406,6 +406,10 @@ func driveUntrusted(h *vh.H, strict, safe bool) {
 	per := h.N(40, 800)
 	nmut := 6
 	var ms runtime.MemStats
+	withMap := make([]bool, len(roots))
+	for ti, rt := range roots {
+		withMap[ti] = hasMap(reflect.TypeOf(rt.mk()).Elem(), 0)
+	}
 	for ti, rt := range roots {
 		for k := 0; k < per; k++ {
 			ci := ti*100000 + k
@@ -426,6 +430,28 @@ func driveUntrusted(h *vh.H, strict, safe bool) {
 			if k%10 == 0 && len(enc) <= 600 { // every proper prefix of some valid encodings
 				for p := 0; p < len(enc); p++ {
 					inputs = append(inputs, enc[:p])
+				}
+			}
+			// repeated / swapped neighbours: a window of w bytes copied over (or swapped with) the w bytes that follow it, at
+			// every early offset — two adjacent dictionary entries or set elements become equal or change places. Systematic
+			// for short encodings of types that contain dictionaries or sequences of fixed-width items.
+			if withMap[ti] && len(enc) <= 160 && k%2 == 0 {
+				for _, wl := range []int{4, 8, 12, 32, 33, 36, 40, 44} {
+					for off := 0; off <= 12 && off+2*wl <= len(enc); off++ {
+						dup := append([]byte(nil), enc...)
+						copy(dup[off+wl:off+2*wl], enc[off:off+wl])
+						inputs = append(inputs, dup)
+						// only the first 4 bytes (a 32-bit key) repeated
+						if wl > 4 {
+							kd := append([]byte(nil), enc...)
+							copy(kd[off+wl:off+wl+4], enc[off:off+4])
+							inputs = append(inputs, kd)
+						}
+						sw := append([]byte(nil), enc...)
+						copy(sw[off:off+wl], enc[off+wl:off+2*wl])
+						copy(sw[off+wl:off+2*wl], enc[off:off+wl])
+						inputs = append(inputs, sw)
+					}
 				}
 			}
 			for ii, in := range inputs {
